@@ -82,6 +82,8 @@ pub struct OpRecord {
     pub reader_errored: bool,
     /// the tree came from `html2text::parse` (default context)
     pub free_tree: bool,
+    /// which (document, configuration) variant this result belongs to
+    pub variant: u32,
     /// text length (kept even when the text itself is dropped)
     pub text_len: usize,
     /// wall-clock microseconds (diagnostics only; never part of a verdict or hash)
@@ -163,10 +165,11 @@ fn map_err(e: Error) -> Outcome {
 struct Meta {
     limit: usize,
     free_tree: bool,
+    variant: usize,
 }
 
 pub struct Mailboxes {
-    boxes: Mutex<Vec<VecDeque<(RenderTree, usize, bool)>>>,
+    boxes: Mutex<Vec<VecDeque<(RenderTree, usize, bool, usize)>>>,
 }
 
 pub struct ExecOpts {
@@ -242,8 +245,9 @@ fn run_thread<D: SimDeco>(
     tid: usize,
     tspec: &ThreadSpec,
     scen: &Scenario,
-    doc: &[u8],
-    cfg: Option<&Config<D>>,
+    docs: &[Vec<u8>],
+    specs: &[ConfigSpec],
+    cfgs: &[Option<Config<D>>],
     shared: Arc<Shared>,
     mail: &Mailboxes,
     opts: &ExecOpts,
@@ -258,7 +262,7 @@ where
     let mut doms: HashMap<Slot, (RcDom, Meta)> = HashMap::new();
     let mut trees: HashMap<Slot, (RenderTree, Meta)> = HashMap::new();
     let mut records = Vec::with_capacity(tspec.ops.len());
-    let spec = &scen.config;
+    let mut cur = 0usize;
     let mut dead = false;
 
     for (i, op) in tspec.ops.iter().enumerate() {
@@ -271,6 +275,10 @@ where
         let mut width = None;
         let mut reader_errored = false;
         let mut free_tree = false;
+        let mut variant = cur;
+        let doc: &[u8] = &docs[cur];
+        let spec = &specs[cur];
+        let cfg: Option<&Config<D>> = cfgs[cur].as_ref();
 
         macro_rules! lines_outcome {
             ($r:expr) => {
@@ -358,6 +366,7 @@ where
                                 Meta {
                                     limit: lim,
                                     free_tree: true,
+                                    variant: cur,
                                 },
                             ),
                         );
@@ -384,6 +393,7 @@ where
                                     Meta {
                                         limit: lim,
                                         free_tree: false,
+                                        variant: cur,
                                     },
                                 ),
                             ) {
@@ -396,10 +406,14 @@ where
                     }
                 }
             },
-            Op::BuildTree { dom, tree } => match (cfg, doms.get(dom)) {
-                (Some(cfg), Some((d, meta))) => {
+            Op::BuildTree { dom, tree } => match doms.get(dom) {
+                // the tree is built with the configuration the DOM was parsed under
+                Some((d, meta)) if cfgs[meta.variant].is_some() => {
+                    let cfg = cfgs[meta.variant].as_ref().unwrap();
                     limit = Some(meta.limit);
+                    variant = meta.variant;
                     let lim = meta.limit;
+                    let var = meta.variant;
                     match guarded(|| cfg.dom_to_render_tree(d)) {
                         Ok(Ok(t)) => {
                             trees.insert(
@@ -409,6 +423,7 @@ where
                                     Meta {
                                         limit: lim,
                                         free_tree: false,
+                                        variant: var,
                                     },
                                 ),
                             );
@@ -425,8 +440,10 @@ where
                     let m = Meta {
                         limit: meta.limit,
                         free_tree: meta.free_tree,
+                        variant: meta.variant,
                     };
                     limit = Some(meta.limit);
+                    variant = meta.variant;
                     match guarded(|| t.clone()) {
                         Ok(c) => {
                             trees.insert(*to, (c, m));
@@ -449,6 +466,7 @@ where
                             let m = Meta {
                                 limit: meta.limit,
                                 free_tree: meta.free_tree,
+                                variant: meta.variant,
                             };
                             match guarded(|| t.clone()) {
                                 Ok(c) => Some((c, m)),
@@ -469,6 +487,7 @@ where
                                         width,
                                         reader_errored,
                                         free_tree,
+                                        variant: meta.variant as u32,
                                         text_len: len,
                                         wall_us: 0,
                                     });
@@ -479,10 +498,13 @@ where
                         None => None,
                     }
                 };
-                match (cfg, got) {
-                    (Some(cfg), Some((t, meta))) => {
+                match got {
+                    // rendered with the configuration the tree was built under
+                    Some((t, meta)) if cfgs[meta.variant].is_some() => {
+                        let cfg = cfgs[meta.variant].as_ref().unwrap();
                         limit = Some(meta.limit);
                         free_tree = meta.free_tree;
+                        variant = meta.variant;
                         guarded(|| match op {
                             Op::RenderString { .. } => text_outcome!(cfg.render_to_string(t, *w)),
                             Op::RenderLines { .. } => lines_outcome!(cfg.render_to_lines(t, *w)),
@@ -496,6 +518,11 @@ where
                     _ => Ok(Outcome::Skipped),
                 }
             }
+            Op::Use { variant: v } => {
+                cur = (*v as usize) % docs.len();
+                variant = cur;
+                Ok(Outcome::Unit)
+            }
             Op::DropDom { dom } => match doms.remove(dom) {
                 Some(d) => guarded(move || drop(d)).map(|_| Outcome::Unit),
                 None => Ok(Outcome::Skipped),
@@ -508,7 +535,7 @@ where
                 Some((t, meta)) => {
                     let mut b = mail.boxes.lock().unwrap();
                     let to = (*to as usize) % b.len();
-                    b[to].push_back((t, meta.limit, meta.free_tree));
+                    b[to].push_back((t, meta.limit, meta.free_tree, meta.variant));
                     ctx.with_stats(|s| s.handoffs += 1);
                     ctx.log(EventKind::Handoff, to as u64);
                     Ok(Outcome::Unit)
@@ -528,7 +555,7 @@ where
                     got = mail.boxes.lock().unwrap()[tid].pop_front();
                 }
                 match got {
-                    Some((t, lim, ft)) => {
+                    Some((t, lim, ft, var)) => {
                         if let Some(old) = trees.insert(
                             *tree,
                             (
@@ -536,6 +563,7 @@ where
                                 Meta {
                                     limit: lim,
                                     free_tree: ft,
+                                    variant: var,
                                 },
                             ),
                         ) {
@@ -565,6 +593,7 @@ where
             width,
             reader_errored,
             free_tree,
+            variant: variant as u32,
             text_len: len,
             wall_us: op_start.elapsed().as_micros() as u64,
         });
@@ -581,6 +610,7 @@ where
             width: None,
             reader_errored: false,
             free_tree: false,
+            variant: 0,
             text_len: 0,
             wall_us: 0,
         });
@@ -598,7 +628,7 @@ where
     }
 }
 
-fn run_with<D: SimDeco>(scen: &Scenario, doc: &[u8], opts: &ExecOpts) -> RunResult
+fn run_with<D: SimDeco>(scen: &Scenario, opts: &ExecOpts) -> RunResult
 where
     D::Annotation: Send,
 {
@@ -618,10 +648,18 @@ where
             )
         })
     });
+    let nvar = scen.num_variants();
+    let docs: Vec<Vec<u8>> = (0..nvar).map(|v| scen.variant_doc(v).materialise()).collect();
+    let specs: Vec<ConfigSpec> = (0..nvar).map(|v| scen.variant_config(v)).collect();
     let mut config_outcome = Outcome::Unit;
     let mut cfg_ticks = 0;
     let mut cfg_counts = [0u64; NUM_SITES];
-    let cfg: Option<Config<D>> = if needs_cfg {
+    let mut cfgs: Vec<Option<Config<D>>> = Vec::new();
+    for spec in &specs {
+        if !needs_cfg {
+            cfgs.push(None);
+            continue;
+        }
         let fuel = scen.fuel;
         verif_hooks::install(
             fuel,
@@ -632,14 +670,19 @@ where
                 u64::MAX
             }),
         );
-        let r = guarded(|| D::build(&scen.config));
-        cfg_ticks = verif_hooks::ticks();
-        cfg_counts = verif_hooks::counts();
+        let r = guarded(|| D::build(spec));
+        cfg_ticks += verif_hooks::ticks();
+        let c = verif_hooks::counts();
+        for i in 0..NUM_SITES {
+            cfg_counts[i] += c[i];
+        }
         verif_hooks::uninstall();
-        match r {
+        cfgs.push(match r {
             Ok(Built::Ok(c)) => Some(c),
             Ok(Built::CssRejected) => {
-                config_outcome = Outcome::CssRejected;
+                if matches!(config_outcome, Outcome::Unit) {
+                    config_outcome = Outcome::CssRejected;
+                }
                 None
             }
             Ok(Built::Other(e)) => {
@@ -650,16 +693,14 @@ where
                 config_outcome = o;
                 None
             }
-        }
-    } else {
-        None
-    };
+        });
+    }
 
     let shared = Shared::new(n, &scen.sched, opts.trace);
     let mail = Mailboxes {
         boxes: Mutex::new((0..n).map(|_| VecDeque::new()).collect()),
     };
-    let cfg_ref = cfg.as_ref();
+    let (docs_ref, specs_ref, cfgs_ref) = (&docs[..], &specs[..], &cfgs[..]);
     let outs: Vec<ThreadOut> = std::thread::scope(|s| {
         let mut handles = Vec::new();
         for (tid, tspec) in scen.threads.iter().enumerate() {
@@ -669,7 +710,7 @@ where
                 .name(format!("sim{}", tid))
                 .stack_size(tspec.stack_kib as usize * 1024)
                 .spawn_scoped(s, move || {
-                    run_thread::<D>(tid, tspec, scen, doc, cfg_ref, shared, mail, opts)
+                    run_thread::<D>(tid, tspec, scen, docs_ref, specs_ref, cfgs_ref, shared, mail, opts)
                 })
                 .expect("spawn simulated thread");
             handles.push(h);
@@ -693,6 +734,7 @@ where
             width: None,
             reader_errored: false,
             free_tree: false,
+            variant: 0,
             text_len: 0,
             wall_us: 0,
         });
@@ -725,19 +767,18 @@ where
 
 /// Execute a scenario in this process.
 pub fn run_scenario(scen: &Scenario, opts: &ExecOpts) -> RunResult {
-    let doc = scen.doc.materialise();
     match scen.config.decorator {
-        Deco::Plain | Deco::PlainNoDecorate => run_with::<PlainDecorator>(scen, &doc, opts),
-        Deco::Rich => run_with::<RichDecorator>(scen, &doc, opts),
-        Deco::Trivial => run_with::<TrivialDecorator>(scen, &doc, opts),
-        Deco::Custom { .. } => run_with::<AsciiDecorator>(scen, &doc, opts),
+        Deco::Plain | Deco::PlainNoDecorate => run_with::<PlainDecorator>(scen, opts),
+        Deco::Rich => run_with::<RichDecorator>(scen, opts),
+        Deco::Trivial => run_with::<TrivialDecorator>(scen, opts),
+        Deco::Custom { .. } => run_with::<AsciiDecorator>(scen, opts),
     }
 }
 
 /// The reference model for C10: the trivial one-shot delivery on a quiet
 /// system (no hooks, no faults, calling thread).  Returns (string outcome,
 /// lines outcome).
-pub fn reference(scen: &Scenario, doc: &[u8], limit: usize, w: usize, fuel: u64) -> (Outcome, Outcome) {
+pub fn reference(config: &ConfigSpec, doc: &[u8], limit: usize, w: usize, fuel: u64) -> (Outcome, Outcome) {
     install_panic_hook();
     // Only a fuel bound (so that a non-terminating render cannot hang the
     // oracle); no preemption, no faults.
@@ -750,12 +791,12 @@ pub fn reference(scen: &Scenario, doc: &[u8], limit: usize, w: usize, fuel: u64)
             u64::MAX
         }),
     );
-    let r = reference_inner(scen, doc, limit, w);
+    let r = reference_inner(config, doc, limit, w);
     verif_hooks::uninstall();
     r
 }
 
-fn reference_inner(scen: &Scenario, doc: &[u8], limit: usize, w: usize) -> (Outcome, Outcome) {
+fn reference_inner(config: &ConfigSpec, doc: &[u8], limit: usize, w: usize) -> (Outcome, Outcome) {
     fn go<D: SimDeco>(spec: &ConfigSpec, d: &[u8], w: usize) -> (Outcome, Outcome)
     where
         D::Annotation: Send,
@@ -788,10 +829,10 @@ fn reference_inner(scen: &Scenario, doc: &[u8], limit: usize, w: usize) -> (Outc
         (s, l)
     }
     let d = &doc[..limit.min(doc.len())];
-    match scen.config.decorator {
-        Deco::Plain | Deco::PlainNoDecorate => go::<PlainDecorator>(&scen.config, d, w),
-        Deco::Rich => go::<RichDecorator>(&scen.config, d, w),
-        Deco::Trivial => go::<TrivialDecorator>(&scen.config, d, w),
-        Deco::Custom { .. } => go::<AsciiDecorator>(&scen.config, d, w),
+    match config.decorator {
+        Deco::Plain | Deco::PlainNoDecorate => go::<PlainDecorator>(config, d, w),
+        Deco::Rich => go::<RichDecorator>(config, d, w),
+        Deco::Trivial => go::<TrivialDecorator>(config, d, w),
+        Deco::Custom { .. } => go::<AsciiDecorator>(config, d, w),
     }
 }
